@@ -34,6 +34,7 @@ fn main() {
         "tickconf" => drivers::tickconf::run(&args),
         "actorconf" => drivers::actorconf::run(&args),
         "adaptconf" => drivers::adaptconf::run(&args),
+        "socktable" => drivers::socktable::run(&args),
         "auth" => drivers::auth::run(&args),
         "lookup" => drivers::lookup::run(&args),
         "join" => drivers::join::run(&args),
